@@ -26,7 +26,7 @@ CHECKS["C14"] = {
 }
 
 CHECKS["C08"] = {
-    "assumptions": [],
+    "assumptions": ["float digit generation (strconv.FormatFloat/AppendFloat, fmt %g/%v) on a symbolic operand is a contract stub: with precision -1 the text parses back (strconv.ParseFloat) to the operand rounded to the formatter's bit size, and is a JSON number iff the operand is finite; any other verb or precision parses back to an unconstrained value; native replays run the real formatter"],
     "harnesses": [
         {"pkg": "graphql", "harness": "Harness_C08_writeQuotedString", "reach": ["quoted.checked"],
          "quick": {"params": {"n": 3}, "workers": 8}, "thorough": {"params": {"n": 4}, "workers": 14},
@@ -39,8 +39,8 @@ CHECKS["C08"] = {
          "what": "FieldSet / Array / lit / contextMarshalerAdapter compositions of depth <= 2 [3], 0..2 children of 7 kinds each: output equals the JSON text of the composition"},
         {"pkg": "graphql", "harness": "Harness_C08_misc", "reach": ["c08.misc"], "quick": {"sample_models": 20},
          "what": "Boolean (symbolic), Time, UUID, Map, Any, Omittable: round trips and null forms"},
-        {"pkg": "graphql", "harness": "Harness_C08_float", "reach": ["c08.float"], "cross_solvers": ["z3", "cvc5"],
-         "what": "MarshalFloatContext: error iff non-finite, for every float64 bit pattern (FloatingPoint theory)"},
+        {"pkg": "graphql", "harness": "Harness_C08_float", "reach": ["c08.float"], "cross_solvers": ["z3", "cvc5"], "quick": {"sample_models": 20},
+         "what": "MarshalFloatContext / MarshalFloat + UnmarshalFloat for every float64 bit pattern (FloatingPoint theory): error iff non-finite; the emitted token is a JSON number decoding to exactly the value (strconv/fmt shortest-digit generation as a contract model: text parses back to the operand rounded to the formatter's bit size; other verbs/precisions unconstrained), unmarshal gives the original back"},
     ],
 }
 
@@ -289,3 +289,19 @@ CHECKS["C05"]["harnesses"].append(
     dict(_WS, harness="Harness_C11_initTimeout", reach=["c11.timeout.fired"], sched_confirm=True, quick={"sample_models": 8},
          what="websocket init timeout: no goroutine of the handshake survives the closed connection"))
 
+
+CHECKS["C15"]["harnesses"].append(
+    dict(_HTTP, harness="Harness_C15_server", setup="Setup_C15_server", reach=["c15.server"], workers=8,
+         quick={"params": {"hist": 2}, "sample_models": 40, "sample_every": 5}, thorough={"params": {"hist": 3}, "sample_models": 60, "sample_every": 47, "workers": 14},
+         what="histories of 2 [3] HTTP requests through one Server (POST/GET transports with the recycled parameter object, APQ extension, executor) over 7 request kinds x 2 texts incl. bodies that fail decoding after query/extensions were read, against the model hash -> text"))
+
+CHECKS["C14"]["harnesses"].append(
+    {"pkg": "graphql/handler/extension", "harness": "Harness_C14_variables", "setup": "Setup_C14_walk", "reach": ["c14.vars.accepted", "c14.vars.rejected"], "workers": 6,
+     "quick": {"sample_models": 30, "sample_every": 3},
+     "what": "the gate end to end through executor.CreateOperationContext: 6 operations whose custom cost depends on an argument given by literal / variable / variable default x 4 values x int64|json.Number, symbolic limit: rejected iff the documented complexity under the request's variable values exceeds the limit; rejected operations are not dispatched"})
+
+CHECKS["C07"]["prepare"] = probes.prepare
+CHECKS["C07"]["harnesses"].append(
+    {"probe": "core", "harness": "Harness_C07_sharedDocument", "setup": "Setup_C07_sharedDocument", "reach": ["c07.doc.sequential", "c07.doc.concurrent"], "workers": 8, "race": True,
+     "configs_quick": ["single"], "configs_thorough": ["single", "follow"], "quick": {"params": {"concq": 2}, "sample_models": 12}, "thorough": {"workers": 14, "sample_models": 24, "sample_every": 97},
+     "what": "generated executor + executor.Executor with a query cache: the same text under different variables (6 documents with variable-dependent merged selections), sequentially (cached document frozen after the first request) and concurrently (every explored schedule, vector-clock race check): each response equals the reference for that request alone"})
